@@ -31,6 +31,12 @@ CHECKS = {
     text="Every guard program up to depth 4 (thorough: 5) over 3-4 layout-compatible colour types - nested guards, then_into chains, clamped/unclamped flips, writes through the guard, restore, drop, forget, owned Vec/Box conversion - plus long simulated programs is executed on Vec, Box<[T]> and single values. After every operation TLC requires the raw arrays to be bit-identical to the specification's term evaluated with the ordinary conversion API, and address, length and capacity to be unchanged.",
     ref="DESIGN.md section 4 C13",
     note=TRUST + "; the out-of-place API is the meaning of a conversion step; absence of undefined behaviour inside the unsafe blocks as such is not decided (values, addresses, lengths only)"),
+ "C15": dict(
+    technique="exact integer hexcone model (Hexcone.tla) with containment proved by TLC on a lattice; TLC trace validation of containment, bound preservation and round trip (TraceGamut.tla) on recorded conversions of the cylinder and RGB lattices",
+    category="model_checking",
+    text="For HSV/HSL/HWB the containment is a theorem of the integer hexcone model, checked by TLC for every sector, sector boundary and lattice value (one state per point). For all seven spaces the real conversions of a cylinder lattice (hues every 15 degrees - 3 in thorough - plus sector edges and the Oklab hues of the sRGB primaries and secondaries; saturation/value/lightness/whiteness/blackness including the bounds and a billionth inside) to sRGB, and of an RGB lattice plus random and boundary colours into each space and back, are judged by TLC: components in [-tol, 1+tol], bounds kept up to the slack, round trip within 2^-16 (f64) / 2^-13 (f32). Tolerances are named in TraceGamut.tla (rounding only for the hexcone spaces; about twice the pinned tree's approximation error for Ok* and HSLuv) and the evidence reports the largest excursion seen.",
+    ref="DESIGN.md section 4 C15",
+    note=TRUST + "; tolerance table of TraceGamut.tla; known findings C15-hsluv-white-saturation and C15-f32-ok-blue-edge"),
  "C18": dict(
     technique="TLA+ reference machine (Soa.tla); TLC enumerates all operation histories, replayed on the real collections; TLC trace validation of every recorded call",
     category="model_checking",
